@@ -244,6 +244,8 @@ PLANS["C11"] = {
         T("tzwitness", "tzwitness", (1, 1), ["InvC01"], backends="bolt"),
         T("rich", "rich", (60, 2000), ["InvC01", "InvAuditDocs"]),
         T("rich-reopen", "richreopen", (20, 400), ["InvC01", "InvAuditDocs", "InvReopen"], backends="bolt,badger"),
+        T("retype", "retype", (25, 400), ["InvC01", "InvAuditDocs"]),
+        T("retype-reopen", "retypereopen", (8, 100), ["InvC01", "InvAuditDocs", "InvReopen"], backends="bolt,badger"),
         T("extremes", "extremes", (15, 300), ["InvC01", "InvAuditDocs"]),
         T("floats", "floats", (15, 300), ["InvC01", "InvAuditDocs"]),
     ],
